@@ -1358,7 +1358,8 @@ Lemma update_status_shape sw m sw' m' ok :
   (sw' = sw /\ m' = m) \/
   (exists stored, find_set (sw_sets sw) (oi_kind (os_id m)) (oi_ns (os_id m)) (oi_name (os_id m)) = Some stored /\
      os_rv stored = os_rv m /\ status_eqb stored m = false /\
-     sw' = {| sw_w := bump_rv (sw_w sw); sw_sets := put_set (sw_sets sw) (with_status stored m (w_rv (sw_w sw))) |} /\
+     sw' = {| sw_w := bump_rv (sw_w sw); sw_sets := put_set (sw_sets sw) (with_status stored m (w_rv (sw_w sw)));
+              sw_phases := sw_phases sw; sw_nss := sw_nss sw |} /\
      m' = with_status stored m (w_rv (sw_w sw)) /\ ok = true).
 Proof.
   unfold update_status. destruct (find_set _ _ _ _) as [stored|]; [|intros H; injection H as <- <- _; now left].
@@ -1615,7 +1616,7 @@ Section SetFrame.
 
   Lemma fr_put sw st x' :
     fr sw -> find_set (sw_sets sw) k ns n = Some st -> okm x' ->
-    fr {| sw_w := bump_rv (sw_w sw); sw_sets := put_set (sw_sets sw) x' |}.
+    fr {| sw_w := bump_rv (sw_w sw); sw_sets := put_set (sw_sets sw) x'; sw_phases := sw_phases sw; sw_nss := sw_nss sw |}.
   Proof.
     intros F Hf Hx. pose proof (stored_okm _ _ F Hf) as Hst. destruct (okm_key _ Hx) as (K1 & K2 & K3).
     assert (Hf' : find_set (sw_sets sw) (oi_kind (os_id x')) (oi_ns (os_id x')) (oi_name (os_id x')) = Some st) by now rewrite K1, K2, K3.
@@ -1668,8 +1669,8 @@ Section SetFrame.
     - eapply fr_put; eauto.
   Qed.
 
-  Lemma fr_with_w sw w : fr sw -> fr (with_w sw w).
-  Proof. intros [A B C D]. constructor; auto. Qed.
+  Lemma fr_sets sw sw' : sw_sets sw' = sw_sets sw -> fr sw -> fr sw'.
+  Proof. intros E [A B C D]. constructor; rewrite ?E; auto. Qed.
 
   Lemma revision_pass_fr sw mem sw1 evs1 mem1 rr :
     fr sw -> okm mem -> revision_pass sw mem = (sw1, evs1, mem1, rr) -> fr sw1 /\ okm mem1.
@@ -1704,22 +1705,25 @@ Section SetFrame.
     intros F Hm. unfold active_body.
     destruct (revision_pass sw mem) as [[[sw1 evs1] mem1] rr] eqn:Erev.
     destruct (revision_pass_fr _ _ _ _ _ _ F Hm Erev) as [F1 Hm1].
-    assert (Hfail : forall sw2 evsx rs swf evsf rf, fr sw2 ->
-              (let m' := set_conds mem1 (set_cond (os_conds mem1) (mk_cond mem1 CAvailable SFalse rs)) in
+    assert (Hfail : forall (mx : oset) sw2 evsx rs swf evsf rf, fr sw2 -> okm mx ->
+              (let m' := set_conds mx (set_cond (os_conds mx) (mk_cond mx CAvailable SFalse rs)) in
                let '(sw'', _, ok) := update_status sw2 m' in
                (sw'', evsx ++ [status_ev m' ok], if ok then SDone true else SError)) = (swf, evsf, rf) -> fr swf).
-    { intros sw2 evsx rs swf evsf rf F2. cbv zeta. destruct (update_status sw2 _) as [[sw3 m3] ok] eqn:Eu.
-      intros H. injection H as <- _ _. eapply update_status_fr; [exact F2| |exact Eu]. eapply okm_same; [exact Hm1|reflexivity..]. }
+    { intros mx sw2 evsx rs swf evsf rf F2 Hmx. cbv zeta. destruct (update_status sw2 _) as [[sw3 m3] ok] eqn:Eu.
+      intros H. injection H as <- _ _. eapply update_status_fr; [exact F2| |exact Eu]. eapply okm_same; [exact Hmx|reflexivity..]. }
     destruct rr.
     - destruct (Nat.ltb 0 (dup_count [] (map (spec_key mem1) (all_objects mem1)))); [intros H; eapply Hfail; eauto|].
-      destruct (reconcile_phases force (sw_w sw1) (as_owner mem1) _ _ []) as [[w2 pevs] pr].
-      destruct pr as [e| |ctrlof failed].
-      + destruct e; try (intros H; eapply Hfail; [|exact H]; (apply fr_with_w; assumption));
-          intros H; injection H as <- _ _; (apply fr_with_w; assumption).
-      + intros H; eapply Hfail; [|exact H]; (apply fr_with_w; assumption).
-      + destruct (update_status (with_w sw1 w2) (final_status mem1 ctrlof failed)) as [[sw3 m3] ok] eqn:Eu.
-        intros H. injection H as <- _ _. eapply update_status_fr; [apply fr_with_w; exact F1| |exact Eu].
-        eapply okm_same; [exact Hm1|reflexivity..].
+      destruct (reconcile_phases_m force sw1 mem1 (as_owner mem1) _ _ [] (os_remotes mem1)) as [[[sw2 pevs] rem] pr] eqn:Erp.
+      destruct (rpm_inv force _ _ _ _ _ _ _ _ _ _ _ Erp) as (Hsets & _).
+      pose proof (fr_sets _ _ Hsets F1) as F2.
+      assert (Hm2 : okm (set_remotes mem1 rem)) by (eapply okm_same; [exact Hm1|reflexivity..]).
+      destruct pr as [e| | |ctrlof failed].
+      + destruct e; try (intros H; eapply Hfail; [exact F2|exact Hm2|exact H]); intros H; injection H as <- _ _; exact F2.
+      + intros H. injection H as <- _ _. exact F2.
+      + intros H; eapply Hfail; [exact F2|exact Hm2|exact H].
+      + destruct (update_status sw2 (final_status (sw_phases sw2) (set_remotes mem1 rem) ctrlof failed)) as [[sw3 m3] ok] eqn:Eu.
+        intros H. injection H as <- _ _. eapply update_status_fr; [exact F2| |exact Eu].
+        eapply okm_same; [exact Hm2|reflexivity..].
     - destruct (update_status sw1 _) as [[sw2 m2] ok] eqn:Eu. intros H. injection H as <- _ _.
       eapply update_status_fr; [exact F1| |exact Eu]. eapply okm_same; [exact Hm1|reflexivity..].
     - intros H. injection H as <- _ _. exact F1.
@@ -1730,29 +1734,33 @@ Section SetFrame.
   Proof.
     intros F Hm. unfold deletion_pass.
     set (archived := lifecycle_eqb (os_life mem) LArchived).
-    change (if os_fin mem then if os_orphan mem then (sw_w sw, [], TdOk true)
-            else teardown_phases force (sw_w sw) (as_owner mem) (rev (filter (fun ph => negb (ph_class ph)) (os_phases mem)))
-            else (sw_w sw, [], TdOk true)) with (teardown_of force sw mem).
-    destruct (teardown_of force sw mem) as [[w1 tevs] td].
-    assert (Hfinish : forall sw1 evs1 mem1 swf evsf rf,
-       (if negb archived then (sw1, evs1, SDone false)
-        else let '(sw'', _, ok) := update_status sw1 (set_conds mem1 (remove_cond (os_conds mem1) CAvailable)) in
+    change (if os_fin mem then if os_orphan mem then (sw, [], TdOk true)
+            else teardown_phases_m force sw mem (as_owner mem) (rev (os_phases mem))
+            else (sw, [], TdOk true)) with (teardown_of force sw mem).
+    destruct (teardown_of force sw mem) as [[sw1 tevs] td] eqn:Etd.
+    assert (F1 : fr sw1).
+    { unfold teardown_of in Etd. destruct (os_fin mem); [|injection Etd as <- _ _; exact F].
+      destruct (os_orphan mem); [injection Etd as <- _ _; exact F|].
+      destruct (tpm_inv force _ _ _ _ _ _ _ Etd) as (Hsets & _). exact (fr_sets _ _ Hsets F). }
+    assert (Hfinish : forall swx evs1 mem1 swf evsf rf,
+       (if negb archived then (swx, evs1, SDone false)
+        else let '(sw'', _, ok) := update_status swx (set_conds mem1 (remove_cond (os_conds mem1) CAvailable)) in
              (sw'', evs1 ++ [status_ev (set_conds mem1 (remove_cond (os_conds mem1) CAvailable)) ok], if ok then SDone false else SError)) = (swf, evsf, rf) ->
-       fr sw1 -> okm mem1 -> fr swf).
-    { intros sw1 evs1 mem1 swf evsf rf. destruct (negb archived); [intros H F1 Hm1; injection H as <- _ _; exact F1|].
-      destruct (update_status sw1 _) as [[sw2 m2] ok] eqn:Eu. intros H F1 Hm1. injection H as <- _ _.
-      eapply update_status_fr; [exact F1| |exact Eu]. eapply okm_same; [exact Hm1|reflexivity..]. }
+       fr swx -> okm mem1 -> fr swf).
+    { intros swx evs1 mem1 swf evsf rf. destruct (negb archived); [intros H Fx Hm1; injection H as <- _ _; exact Fx|].
+      destruct (update_status swx _) as [[sw2 m2] ok] eqn:Eu. intros H Fx Hm1. injection H as <- _ _.
+      eapply update_status_fr; [exact Fx| |exact Eu]. eapply okm_same; [exact Hm1|reflexivity..]. }
     assert (Harch_ok : forall m0, okm m0 -> okm (if archived then set_ctrlof (set_conds m0 (set_cond (os_conds m0) (mk_cond m0 CArchived STrue RArchived))) [] else m0)).
     { intros m0 H0. destruct archived; [|exact H0]. eapply okm_same; [exact H0|reflexivity..]. }
     destruct td as [|[|]].
-    - intros H. injection H as <- _ _. apply fr_with_w; assumption.
+    - intros H. injection H as <- _ _. exact F1.
     - destruct (os_fin mem).
-      + destruct (patch_finalizer (with_w sw w1) mem false) as [sw2 [mem2|]] eqn:Ep;
-          destruct (patch_finalizer_fr _ _ _ _ _ (fr_with_w _ w1 F) Hm Ep) as [F2 Hm2].
+      + destruct (patch_finalizer sw1 mem false) as [sw2 [mem2|]] eqn:Ep;
+          destruct (patch_finalizer_fr _ _ _ _ _ F1 Hm Ep) as [F2 Hm2].
         * intros H. eapply Hfinish; [exact H|exact F2|]. now apply Harch_ok.
         * intros H. injection H as <- _ _. exact F2.
-      + intros H. eapply Hfinish; [exact H|apply fr_with_w; assumption|]. now apply Harch_ok.
-    - intros H. eapply Hfinish; [exact H|apply fr_with_w; assumption|].
+      + intros H. eapply Hfinish; [exact H|exact F1|]. now apply Harch_ok.
+    - intros H. eapply Hfinish; [exact H|exact F1|].
       destruct archived; [|exact Hm]. eapply okm_same; [exact Hm|reflexivity..].
   Qed.
 
@@ -2612,19 +2620,23 @@ Section Handover.
   Variable force : bool.
   Let c : cfg := {| c_flavor := FObjectSet; c_force := force |}.
 
-  (** Tearing a revision down leaves every object alone that the revision neither controls nor owns. *)
-  Lemma tp_foreign ow k o rphs : forall w w' evs r,
-    teardown_phases force w ow rphs = (w', evs, r) ->
-    lookup k (w_store w) = Some o -> is_owner Native (ow_id ow) o = false -> is_controller Native (ow_id ow) o = false ->
-    lookup k (w_store w') = Some o.
+  (** Tearing a revision down (local phases; delegated phases only touch their phase objects) leaves every member
+      object alone that the revision neither controls nor owns. *)
+  Lemma tpm_foreign s ow k o rphs : forall sw sw' evs r,
+    teardown_phases_m force sw s ow rphs = (sw', evs, r) ->
+    lookup k (w_store (sw_w sw)) = Some o -> is_owner Native (ow_id ow) o = false -> is_controller Native (ow_id ow) o = false ->
+    lookup k (w_store (sw_w sw')) = Some o.
   Proof.
-    induction rphs as [|x xs IH]; intros w w' evs r H El Ho Hc.
+    induction rphs as [|x xs IH]; intros sw sw' evs r H El Ho Hc.
     - cbn in H. now injection H as <- _ _.
-    - rewrite tp_cons in H. destruct (teardown_phase _ _ w ow (ph_objects x)) as [[w1 e1] r1] eqn:E1.
-      assert (Hf : lookup k (w_store w1) = Some o).
-      { unfold teardown_phase in E1. exact (proj1 (TeardownProofs.td_objs_foreign _ _ _ _ _ _ _ _ _ _ E1 El Ho Hc)). }
+    - rewrite tpm_cons in H. destruct (td_step force sw s ow x) as [[sw1 e1] r1] eqn:E1.
+      assert (Hf : lookup k (w_store (sw_w sw1)) = Some o).
+      { unfold td_step in E1. destruct (ph_class x).
+        - destruct (remote_teardown_inv _ _ _ _ _ _ E1) as (-> & _). exact El.
+        - destruct (teardown_phase _ _ (sw_w sw) ow (ph_objects x)) as [[w1 e'] r'] eqn:Et. injection E1 as <- _ _. cbn [with_w sw_w].
+          unfold teardown_phase in Et. exact (proj1 (TeardownProofs.td_objs_foreign _ _ _ _ _ _ _ _ _ _ Et El Ho Hc)). }
       destruct r1 as [|[|]]; try (injection H as <- _ _; exact Hf).
-      destruct (teardown_phases force w1 ow xs) as [[w2 e2] r2] eqn:E2. injection H as <- _ _. eapply IH; eauto.
+      destruct (teardown_phases_m force sw1 s ow xs) as [[sw2 e2] r2] eqn:E2. injection H as <- _ _. eapply IH; eauto.
   Qed.
 
   (** A pass of the ObjectSet controller for a revision that is being archived or deleted removes or changes
@@ -2641,8 +2653,8 @@ Section Handover.
     destruct (cond_true (os_conds mem) CArchived) eqn:Ea.
     - unfold objectset_pass in Ep. rewrite Hf, Ea in Ep. injection Ep as <- _ _. exact El.
     - pose proof (objectset_pass_going force _ _ _ _ _ _ _ _ Hf (conj Ea Hg) Ep) as Hd.
-      destruct (deletion_pass_inv force _ _ _ _ _ Hd) as (w1 & tevs & td & Etd & _ & Hst & _). rewrite Hst.
+      destruct (deletion_pass_inv force _ _ _ _ _ Hd) as (sw1 & tevs & td & Etd & _ & Hst & _). rewrite Hst.
       unfold teardown_of in Etd. destruct (os_fin mem); [|injection Etd as <- _ _; exact El].
-      destruct (os_orphan mem); [injection Etd as <- _ _; exact El|]. eapply tp_foreign; eauto.
+      destruct (os_orphan mem); [injection Etd as <- _ _; exact El|]. eapply tpm_foreign; eauto.
   Qed.
 End Handover.
